@@ -95,46 +95,46 @@ Proof.
 Qed.
 
 (** * Part 2: the loop of [complete] as a fold *)
-Fixpoint shadow_run (toks : list bytes) (cur : cmd) (pi : N) (esc : bool) (st : pstate) : step :=
+Fixpoint shadow_run (toks : list bytes) (cur : cmd) (pi : N) (esc : bool) (st : pstate) (vaf : bool) : step :=
   match toks with
-  | [] => SNext cur pi esc st
+  | [] => SNext cur pi esc st vaf
   | t :: rest =>
-      match shadow_step t cur pi esc st with
-      | SNext c' p' e' s' => shadow_run rest c' p' e' s'
+      match shadow_step t cur pi esc st vaf with
+      | SNext c' p' e' s' v' => shadow_run rest c' p' e' s' v'
       | other => other
       end
   end.
 
-Lemma shadow_run_app a : forall b cur pi esc st,
-  shadow_run (a ++ b) cur pi esc st =
-  match shadow_run a cur pi esc st with
-  | SNext c' p' e' s' => shadow_run b c' p' e' s'
+Lemma shadow_run_app a : forall b cur pi esc st vaf,
+  shadow_run (a ++ b) cur pi esc st vaf =
+  match shadow_run a cur pi esc st vaf with
+  | SNext c' p' e' s' v' => shadow_run b c' p' e' s' v'
   | other => other
   end.
 Proof.
-  induction a as [|t a IH]; intros b cur pi esc st; cbn [app shadow_run]; [reflexivity|].
-  destruct (shadow_step t cur pi esc st); try reflexivity. apply IH.
+  induction a as [|t a IH]; intros b cur pi esc st vaf; cbn [app shadow_run]; [reflexivity|].
+  destruct (shadow_step t cur pi esc st vaf); try reflexivity. apply IH.
 Qed.
 
 Definition walk_of (w : bytes) (s : step) : walk :=
   match s with
-  | SNext c p e st => WAt w c p st e
+  | SNext c p e st v => WAt w c p st e v
   | SPanic x => WPanic x
   | SFuel => WFuel
   end.
 
-Lemma shadow_walk_run : forall pre cursor target cur pi esc st w after,
+Lemma shadow_walk_run : forall pre cursor target cur pi esc st vaf w after,
   cursor + N.of_nat (length pre) + 1 = target -> target <= usize_max ->
-  shadow_walk (pre ++ w :: after) cursor target cur pi esc st = walk_of w (shadow_run pre cur pi esc st).
+  shadow_walk (pre ++ w :: after) cursor target cur pi esc st vaf = walk_of w (shadow_run pre cur pi esc st vaf).
 Proof.
-  induction pre as [|t pre IH]; intros cursor target cur pi esc st w after Ht Hm; cbn [app shadow_walk shadow_run].
+  induction pre as [|t pre IH]; intros cursor target cur pi esc st vaf w after Ht Hm; cbn [app shadow_walk shadow_run].
   - cbn [length] in Ht. unfold sat_add.
     replace (N.min (cursor + 1) usize_max) with target by lia.
     rewrite N.eqb_refl. reflexivity.
   - cbn [length] in Ht. unfold sat_add.
     replace (N.min (cursor + 1) usize_max) with (cursor + 1) by lia.
     replace (cursor + 1 =? target) with false by (symmetry; apply N.eqb_neq; lia).
-    destruct (shadow_step t cur pi esc st) as [x| |c' p' e' s']; try reflexivity.
+    destruct (shadow_step t cur pi esc st vaf) as [x| |c' p' e' s' v']; try reflexivity.
     apply IH; lia.
 Qed.
 
@@ -142,7 +142,7 @@ Qed.
 Lemma start_walk_run b bin line w after :
   is_set s_no_binary_name b = false -> N.of_nat (length line) + 2 <= usize_max ->
   start_walk b (bin :: line ++ w :: after) (N.of_nat (S (length line))) =
-  walk_of w (shadow_run line b 1 false ValueDone).
+  walk_of w (shadow_run line b 1 false ValueDone false).
 Proof.
   intros Hnb Hlen. unfold start_walk. rewrite Hnb. change (N.to_nat 1) with 1%nat. cbn [skipn].
   apply shadow_walk_run.
@@ -214,10 +214,10 @@ Hypothesis L : elevel pc cur.
 Let Hrel : lvl_rel pc cur := el_rel pc cur L.
 
 (** `--flag` / `--opt=v` / `--opt` (alone) *)
-Lemma eng_long tok f v a pi :
+Lemma eng_long tok f v a pi evaf :
   no_sub pc tok -> to_long tok = Some (f, true, v) -> get_long pc f = Some a ->
-  shadow_step tok cur pi false ValueDone =
-  SNext cur pi false (if a_takes_value a && is_none v then Opt a 1 else ValueDone).
+  shadow_step tok cur pi false ValueDone evaf =
+  SNext cur pi false (if a_takes_value a && is_none v then Opt a 1 else ValueDone) true.
 Proof.
   intros Hns Hl Hg. destruct (find_long_el pc cur f a L Hg) as [Hf [r [Hn Htv]]].
   unfold shadow_step. cbn [negb]. rewrite (eng_no_sub pc cur tok _ Hrel Hns).
@@ -226,10 +226,10 @@ Proof.
 Qed.
 
 (** the value token of an option that awaits its single value *)
-Lemma eng_value v a r pi :
+Lemma eng_value v a r pi evaf :
   no_sub pc v -> is_escape v = false -> to_long v = None -> to_short v = None ->
   a_num a = Some r -> r_accepts_more r 1 = false ->
-  shadow_step v cur pi false (Opt a 1) = SNext cur pi false ValueDone.
+  shadow_step v cur pi false (Opt a 1) evaf = SNext cur pi false ValueDone evaf.
 Proof.
   intros Hns He Hl Hs Hn Hacc. unfold shadow_step. cbn [negb]. rewrite (eng_no_sub pc cur v _ Hrel Hns).
   rewrite lex_is_escape, He, lex_to_long, Hl, lex_to_short, Hs.
@@ -244,11 +244,11 @@ Proof.
 Qed.
 
 (** `-ov` / `-o` (alone): the first letter is an option that takes a value *)
-Lemma eng_short_opt tok r ch r' a pi :
+Lemma eng_short_opt tok r ch r' a pi evaf :
   no_sub pc tok -> is_escape tok = false -> to_long tok = None -> to_short tok = Some r ->
   sf_next r = Some (inl ch, r') -> get_short pc ch = Some a -> a_takes_value a = true ->
-  shadow_step tok cur pi false ValueDone =
-  SNext cur pi false (if is_nil r' then Opt a 1 else ValueDone).
+  shadow_step tok cur pi false ValueDone evaf =
+  SNext cur pi false (if is_nil r' then Opt a 1 else ValueDone) true.
 Proof.
   intros Hns He Hl Hs Hnx Hg Htv. destruct (find_short_el pc cur ch a L Hg) as [Hf [r0 [Hn Htv']]].
   unfold shadow_step. cbn [negb]. rewrite (eng_no_sub pc cur tok _ Hrel Hns).
@@ -283,8 +283,8 @@ Proof.
   destruct (find_short_el pc cur ch a L Hg) as [Hfs _]. unfold has_short. rewrite Hfs. reflexivity.
 Qed.
 
-Lemma eng_cluster tok os pi : no_sub pc tok -> cluster_token pc tok os ->
-  shadow_step tok cur pi false ValueDone = SNext cur pi false ValueDone.
+Lemma eng_cluster tok os pi evaf : no_sub pc tok -> cluster_token pc tok os ->
+  shadow_step tok cur pi false ValueDone evaf = SNext cur pi false ValueDone true.
 Proof.
   intros Hns [ch [r [Et [Hne [Hd Hc]]]]]. subst tok.
   assert (E45 : (ch =? 45) = false) by (apply N.eqb_neq; exact Hne).
@@ -306,28 +306,32 @@ Qed.
 
 (** every item of C09's option-prefix class brings the shadow parse back to [ValueDone], same level, same
     positional index *)
-Lemma eng_item toks F pi : item pc toks F -> shadow_run toks cur pi false ValueDone = SNext cur pi false ValueDone.
+Lemma eng_item toks F pi evaf : item pc toks F ->
+  shadow_run toks cur pi false ValueDone evaf = SNext cur pi false ValueDone true.
 Proof.
   intros Hi. destruct Hi.
-  - (* --flag *) cbn [shadow_run]. rewrite (eng_long tok f None a pi) by assumption.
+  - (* --flag *) cbn [shadow_run]. rewrite (eng_long tok f None a pi evaf) by assumption.
     match goal with H : a_takes_value a = false |- _ => rewrite H end. reflexivity.
-  - (* --opt=v *) cbn [shadow_run]. rewrite (eng_long tok f (Some v) a pi) by assumption.
+  - (* --opt=v *) cbn [shadow_run]. rewrite (eng_long tok f (Some v) a pi evaf) by assumption.
     cbn [is_none]. rewrite andb_false_r. reflexivity.
-  - (* --opt v *) cbn [shadow_run]. rewrite (eng_long tok f None a pi) by assumption.
+  - (* --opt v *) cbn [shadow_run]. rewrite (eng_long tok f None a pi evaf) by assumption.
     match goal with H : a_takes_value a = true |- _ => rewrite H end. cbn [is_none andb].
-    rewrite (eng_value v a r pi) by assumption. reflexivity.
-  - (* -abc *) cbn [shadow_run]. rewrite (eng_cluster tok os pi) by assumption. reflexivity.
-  - (* -ov *) cbn [shadow_run]. rewrite (eng_short_opt tok r ch (b :: t) a pi) by assumption. reflexivity.
-  - (* -o v *) cbn [shadow_run]. rewrite (eng_short_opt tok r0 ch [] a pi) by assumption. cbn [is_nil].
-    rewrite (eng_value v a r pi) by assumption. reflexivity.
+    rewrite (eng_value v a r pi true) by assumption. reflexivity.
+  - (* -abc *) cbn [shadow_run]. rewrite (eng_cluster tok os pi evaf) by assumption. reflexivity.
+  - (* -ov *) cbn [shadow_run]. rewrite (eng_short_opt tok r ch (b :: t) a pi evaf) by assumption. reflexivity.
+  - (* -o v *) cbn [shadow_run]. rewrite (eng_short_opt tok r0 ch [] a pi evaf) by assumption. cbn [is_nil].
+    rewrite (eng_value v a r pi true) by assumption. reflexivity.
 Qed.
 
-(** ... hence every option prefix does *)
-Theorem eng_prefix pre F : prefix_ok pc pre F -> forall pi,
-  shadow_run pre cur pi false ValueDone = SNext cur pi false ValueDone.
+(** ... hence every option prefix does; the engine's [valid_arg_found] moves as the parser's does *)
+Theorem eng_prefix pre F : prefix_ok pc pre F -> forall pi evaf,
+  shadow_run pre cur pi false ValueDone evaf = SNext cur pi false ValueDone (evaf || negb (is_nil pre)).
 Proof.
-  induction 1 as [|toks F pre G Hi Hp IH]; intros pi; [reflexivity|].
-  rewrite shadow_run_app, (eng_item toks F pi Hi). apply IH.
+  induction 1 as [|toks F pre G Hi Hp IH]; intros pi evaf.
+  - cbn [shadow_run is_nil negb]. rewrite orb_false_r. reflexivity.
+  - rewrite shadow_run_app, (eng_item toks F pi evaf Hi), IH.
+    pose proof (item_nonempty pc toks F Hi) as Hne. destruct toks as [|t0 ts]; [discriminate|].
+    cbn [app is_nil negb orb]. rewrite orb_true_r. reflexivity.
 Qed.
 End EngineItems.
 
@@ -361,13 +365,14 @@ Qed.
 
 (** STATE AGREEMENT, engine side: along a line the shadow parse ends in [ValueDone], not escaped, at a level
     related to the parser's final level *)
-Theorem eng_line pc line pcf : cline pc line pcf -> forall cur pi, lvl_rel pc cur ->
-  exists curf pif, shadow_run line cur pi false ValueDone = SNext curf pif false ValueDone /\ lvl_rel pcf curf.
+Theorem eng_line pc line pcf : cline pc line pcf -> forall cur pi evaf, lvl_rel pc cur ->
+  exists curf pif evf, shadow_run line cur pi false ValueDone evaf = SNext curf pif false ValueDone evf /\ lvl_rel pcf curf.
 Proof.
-  induction 1 as [pc pre Hl [F Hp]|pc pre tok sc0 pc' rest pcf Hl [F Hp] Hu Hf Hnh Hb Hline IH]; intros cur pi Hrel.
-  - exists cur, pi. split; [|exact Hrel]. apply (eng_prefix pc cur (lvl18_el pc cur Hl Hrel) pre F Hp).
+  induction 1 as [pc pre Hl [F Hp]|pc pre tok sc0 pc' rest pcf Hl [F Hp] Hu Hf Hnh Hb Hline IH]; intros cur pi evaf Hrel.
+  - exists cur, pi, (evaf || negb (is_nil pre)). split; [|exact Hrel]. apply (eng_prefix pc cur (lvl18_el pc cur Hl Hrel) pre F Hp).
   - rewrite shadow_run_app, (eng_prefix pc cur (lvl18_el pc cur Hl Hrel) pre F Hp). cbn [shadow_run].
-    destruct (level_step_sub pc cur tok sc0 pi Hrel (l_app pc Hl) Hu Hf (not_help_name sc0 Hnh))
+    assert (Hev : (is_set s_args_negate_subs pc && (evaf || negb (is_nil pre))) = false) by (rewrite (l_neg pc Hl); reflexivity).
+    destruct (level_step_sub pc cur tok sc0 pi _ Hrel (l_app pc Hl) Hu Hf (not_help_name sc0 Hnh) Hev)
       as [es [pc'' [Hstep [Hb' [Hrel' _]]]]].
     rewrite Hb in Hb'. inversion Hb'; subst pc''. rewrite Hstep. apply IH. exact Hrel'.
 Qed.
@@ -687,7 +692,7 @@ Qed.
 Theorem shadow_line c0 bin line w after pcf f b :
   tree_all unb c0 -> is_set s_no_binary_name c0 = false -> N.of_nat (length line) + 2 <= usize_max ->
   build_full f c0 = BOk b -> cline (build_self (with_bin c0 bin)) line pcf ->
-  exists curf pif, start_walk b (bin :: line ++ w :: after) (N.of_nat (S (length line))) = WAt w curf pif ValueDone false
+  exists curf pif evf, start_walk b (bin :: line ++ w :: after) (N.of_nat (S (length line))) = WAt w curf pif ValueDone false evf
                    /\ lvl_rel pcf curf.
 Proof.
   intros Hu Hnb Hlen Hb Hline.
@@ -696,8 +701,8 @@ Proof.
   { rewrite <- (lvl_rel_is_set _ _ s_no_binary_name Hrel), build_self_nbn.
     destruct (with_bin_cases c0 bin) as [-> | ->]; [exact Hnb|]. destruct c0; exact Hnb. }
   rewrite (start_walk_run b bin line w after Hnb' Hlen).
-  destruct (eng_line _ line pcf Hline b 1 Hrel) as [curf [pif [Hrun Hrelf]]].
-  exists curf, pif. rewrite Hrun. split; [reflexivity|exact Hrelf].
+  destruct (eng_line _ line pcf Hline b 1 false Hrel) as [curf [pif [evf [Hrun Hrelf]]]].
+  exists curf, pif, evf. rewrite Hrun. split; [reflexivity|exact Hrelf].
 Qed.
 
 (** * END TO END *)
@@ -710,16 +715,19 @@ Theorem candidate_accepted_line tbl c0 bin line w after l cd pcf e :
   parse_top c0 (bin :: line ++ [cd_value cd]) = OErr e -> ~ unknown_kind (e_kind e).
 Proof.
   intros Hu Hnb Hlen Hline Hm Hin Hcc Hp Hk.
-  destruct (model_ok_inv tbl c0 _ _ l Hm) as [b [w' [cur [pi [st [esc [Hb [Hw Hc]]]]]]]].
+  destruct (model_ok_inv tbl c0 _ _ l Hm) as [b [w' [cur [pi [st [esc [vaf [Hb [Hw [_ Hc]]]]]]]]]].
   pose proof (root_rel _ c0 bin b Hu Hb) as Hrel.
   assert (Hnb' : is_set s_no_binary_name b = false).
   { rewrite <- (lvl_rel_is_set _ _ s_no_binary_name Hrel), build_self_nbn.
     destruct (with_bin_cases c0 bin) as [-> | ->]; [exact Hnb|]. destruct c0; exact Hnb. }
   rewrite (start_walk_run b bin line w after Hnb' Hlen) in Hw.
-  destruct (eng_line _ line pcf Hline b 1 Hrel) as [curf [pif [Hrun Hrelf]]].
-  rewrite Hrun in Hw. cbn [walk_of] in Hw. inversion Hw; subst w' cur pi st esc. clear Hw.
+  destruct (eng_line _ line pcf Hline b 1 false Hrel) as [curf [pif [evf [Hrun Hrelf]]]].
+  rewrite Hrun in Hw. cbn [walk_of] in Hw. inversion Hw; subst w' cur pi st esc vaf. clear Hw.
   assert (Hlf : lvl18 pcf).
   { clear - Hline. induction Hline; assumption. }
+  assert (Hcut : sub_cut curf evf = curf).
+  { unfold sub_cut. rewrite <- (lvl_rel_is_set pcf curf s_args_negate_subs Hrelf), (l_neg pcf Hlf). reflexivity. }
+  rewrite Hcut in Hc.
   rewrite (parse_top_unfold c0 bin _ Hnb) in Hp. unfold do_parse in Hp.
   destruct (negb (valid (with_bin c0 bin))); [discriminate|].
   match type of Hp with match ?g with _ => _ end = _ => destruct g as [s1|e1 s1|x] eqn:Eg end.
@@ -738,7 +746,7 @@ Qed.
 (** after an option prefix: the engine is back in [ValueDone] (same level, same positional index, not escaped)
     and the parser's token loop is back in [ValuesDone] (same positional counter, `--` not seen) *)
 Theorem state_agreement_prefix pc cur pre F : elevel pc cur -> prefix_ok pc pre F ->
-  (forall pi, shadow_run pre cur pi false ValueDone = SNext cur pi false ValueDone) /\
+  (forall pi vaf, shadow_run pre cur pi false ValueDone vaf = SNext cur pi false ValueDone (vaf || negb (is_nil pre))) /\
   (forall rest pos vaf st, fs_skip st = 0 ->
      parse_loop pc (pre ++ rest) (lsV pos vaf) st =
      (do st' <- F st; parse_loop pc rest (lsV pos (vaf || negb (is_nil pre))) st')).
@@ -757,7 +765,7 @@ Inductive open_tok (c : cmd) : bytes -> arg -> ident -> Prop :=
 (** ... then the engine stands in [Opt a 1] exactly when the parser stands in [PSOpt (a_id a)] - the SAME argument -
     with an empty pending occurrence *)
 Theorem state_agreement_open pc cur pre F tok a idn : elevel pc cur -> prefix_ok pc pre F -> open_tok pc tok a idn ->
-  (forall pi, shadow_run (pre ++ [tok]) cur pi false ValueDone = SNext cur pi false (Opt a 1)) /\
+  (forall pi vaf, shadow_run (pre ++ [tok]) cur pi false ValueDone vaf = SNext cur pi false (Opt a 1) true) /\
   (forall rest pos vaf st, fs_skip st = 0 ->
      parse_loop pc (pre ++ tok :: rest) (lsV pos vaf) st =
      (do st' <- F st; do st1 <- resolve_pending pc st';
@@ -765,10 +773,10 @@ Theorem state_agreement_open pc cur pre F tok a idn : elevel pc cur -> prefix_ok
         (st1 <| mt := (mt st1) <| mt_pending := Some (mkPending (a_id a) (Some idn) [] None) |> |>))).
 Proof.
   intros L Hp Ho. split.
-  - intros pi. rewrite shadow_run_app, (eng_prefix pc cur L pre F Hp). cbn [shadow_run].
+  - intros pi vaf. rewrite shadow_run_app, (eng_prefix pc cur L pre F Hp). cbn [shadow_run].
     destruct Ho as [tok f a Hns Hl Hg Htv Hre|tok r ch a Hns He Hl Hs Hn Hg Htv Hre Hnh].
-    + rewrite (eng_long pc cur L tok f None a pi Hns Hl Hg), Htv. reflexivity.
-    + rewrite (eng_short_opt pc cur L tok r ch [] a pi Hns He Hl Hs Hn Hg Htv). reflexivity.
+    + rewrite (eng_long pc cur L tok f None a pi _ Hns Hl Hg), Htv. reflexivity.
+    + rewrite (eng_short_opt pc cur L tok r ch [] a pi _ Hns He Hl Hs Hn Hg Htv). reflexivity.
   - intros rest pos vaf st Hfs. rewrite (loop_prefix pc pre F Hp (tok :: rest) pos vaf st Hfs).
     destruct (F st) as [st'|e1 s1|x] eqn:EF; cbn [rbind]; try reflexivity.
     assert (Hfs' : fs_skip st' = 0) by (rewrite (prefix_fs pc pre F Hp _ _ EF); exact Hfs).
@@ -954,7 +962,7 @@ Theorem require_equals_refuted : exists tbl c0 bin line cd,
   (exists m, parse_top c0 (bin :: line) = OOk m) /\
   (* the engine awaits a value of an option that requires `=` ... *)
   (exists b cur a, build_full (build_fuel c0) c0 = BOk b /\
-     start_walk b (bin :: line ++ [[]]) (N.of_nat (S (length line))) = WAt [] cur 1 (Opt a 1) false /\ a_req_eq a = true) /\
+     start_walk b (bin :: line ++ [[]]) (N.of_nat (S (length line))) = WAt [] cur 1 (Opt a 1) false true /\ a_req_eq a = true) /\
   (* ... offers a value candidate ... *)
   (exists l, complete_model tbl c0 (bin :: line ++ [[]]) (N.of_nat (S (length line))) = COk l /\ In cd l) /\
   (* ... and the completed line is rejected: unknown argument *)
